@@ -363,12 +363,15 @@ def translator_validate(mod, cfg, spec, T, p, st):
     s = z3.Solver()
     s.set("timeout", 3000)
     s.add(*p.pc)
-    # push the model away from branch boundaries so float rounding keeps the same path
+    # push the model away from every branch boundary so that float rounding keeps the run on the same path
+    eps = rv(Fraction(1, 10**6))
+    for a, b in _cmp_atoms(p.pc):
+        s.add(z3.Or(a - b > eps, b - a > eps))
     for n, k in spec.items():
         if k == "real":
             s.add(T[n] * 7 != z3.ToReal(z3.ToInt(T[n] * 7)))
     if s.check() != z3.sat:
-        return
+        return  # e.g. the path requires an exact equality: nothing robust to compare
     m = s.model()
     vals = {n: model_value(m, T[n], spec[n]) for n in spec}
     Vc, _ = concrete_inputs(spec, vals)
@@ -401,6 +404,24 @@ def translator_validate(mod, cfg, spec, T, p, st):
         if abs(exact - float(b)) > 1e-9 * (abs(exact) + abs(float(b)) + big) + 1e-12:
             st.tv_bad += 1
             st.errors.append("translator validation mismatch cfg=%s sym=%r real=%r" % (json.dumps(cfg)[:200], exact, b))
+
+
+def _cmp_atoms(formulas):
+    out, seen, stack = [], set(), list(formulas)
+    while stack:
+        x = stack.pop()
+        if x.get_id() in seen:
+            continue
+        seen.add(x.get_id())
+        k = x.decl().kind() if z3.is_app(x) else None
+        if k in (z3.Z3_OP_LE, z3.Z3_OP_LT, z3.Z3_OP_GE, z3.Z3_OP_GT, z3.Z3_OP_EQ, z3.Z3_OP_DISTINCT) and x.num_args() == 2 \
+                and x.arg(0).sort().kind() in (z3.Z3_REAL_SORT, z3.Z3_INT_SORT):
+            a, b = x.arg(0), x.arg(1)
+            if a.sort().kind() == z3.Z3_INT_SORT:
+                continue
+            out.append((a, b))
+        stack.extend(x.children())
+    return out
 
 
 def _free_vars(e):
